@@ -559,25 +559,42 @@ Qed.
 Definition child_files (orc : pos -> Z -> Z -> pixel) (dflt : fmt) (st : store) (p : pos) : list (option img) :=
   map (fun c => option_map (decode (orc c)) (st c dflt)) (children p).
 
+Lemma cascade_gen_nil u dflt k orc st : cascade_gen u dflt k orc st [] = Some st.
+Proof. reflexivity. Qed.
+
+Lemma cascade_gen_cons u dflt k orc st p rest :
+  cascade_gen u dflt k orc st (p :: rest) =
+  match walk_callback_gen u dflt k orc st p with
+  | None => None
+  | Some st' => cascade_gen u dflt k orc st' rest
+  end.
+Proof. reflexivity. Qed.
+
+Lemma st_set_at st p f v q g :
+  st_set st p f v q g = if pos_eqb q p && fmt_eqb g f then v else st q g.
+Proof. reflexivity. Qed.
+
 Lemma walk_callback_effect u dflt k orc st p st' :
   walk_callback_gen u dflt k orc st p = Some st' ->
   match merge_tiles_gen u dflt k (child_files orc dflt st p) with
   | None => False
-  | Some None => st' = st
+  | Some None =>
+      (* nothing to merge: a tile already lying at p is unlinked *)
+      forall q f, st' q f = if pos_eqb q p && fmt_eqb f dflt then None else st q f
   | Some (Some m) =>
       forall q f, st' q f = if pos_eqb q p && fmt_eqb f dflt
                             then (if is_completely_masked m then None else encode dflt m)
                             else st q f
   end.
 Proof.
-  unfold walk_callback_gen, child_files.
+  unfold walk_callback_gen, walk_callback_var, child_files.
   assert (E : map (fun c => rres_image (orc c) (read_image dflt st c DNone None None)) (children p)
               = map (fun c => option_map (decode (orc c)) (st c dflt)) (children p)).
   { apply map_ext. intros c. apply read_none_image. }
   rewrite E.
   destruct (merge_tiles_gen u dflt k _) as [[m|]|]; [| |discriminate].
   - intros H q f. rewrite (write_image_at _ _ _ _ _ _ H q f). reflexivity.
-  - intros H; injection H as <-. reflexivity.
+  - intros H; injection H as <-. intros q f. apply st_set_at.
 Qed.
 
 (* ------------------------------------------------------------------ *)
@@ -603,8 +620,6 @@ Section Cascade.
   Let leaves : pos -> option fdata := fun p => st0 p dflt.
   Let pspec : nat -> pos -> option fdata := pyramid_spec u dflt k orc leaves.
   Let spec (p : pos) : option fdata := pspec (start - pn p) p.
-
-  Hypothesis upper_empty : forall p, (pn p < start)%nat -> st0 p dflt = None.
 
   Lemma spec_unfold p :
     (pn p < start)%nat ->
@@ -638,6 +653,14 @@ Section Cascade.
   Hypothesis order_nodup : NoDup order.
   Hypothesis order_cf : children_first order.
   Hypothesis order_covers : covers pspec start order.
+  (* every tile already lying above the start level is visited *)
+  Hypothesis present_covered : covers_present dflt st0 start order.
+
+  Lemma not_in_order_absent p : (pn p < start)%nat -> ~ In p order -> st0 p dflt = None.
+  Proof.
+    intros Hp Hn. destruct (st0 p dflt) as [d|] eqn:E; [|reflexivity].
+    exfalso. apply Hn. apply present_covered; [exact Hp|]. rewrite E. discriminate.
+  Qed.
 
   Lemma not_in_order_none p : (pn p < start)%nat -> ~ In p order -> spec p = None.
   Proof.
@@ -651,7 +674,7 @@ Section Cascade.
   Definition inv (done : list pos) (st : store) : Prop :=
     (forall p, (start <= pn p)%nat -> st p dflt = st0 p dflt) /\
     (forall p, In p done -> st p dflt = spec p) /\
-    (forall p, ~ In p done -> (pn p < start)%nat -> st p dflt = None) /\
+    (forall p, ~ In p done -> (pn p < start)%nat -> st p dflt = st0 p dflt) /\
     (forall p f, fmt_eqb f dflt = false -> st p f = st0 p f).
 
   Lemma cascade_inv : forall rest done st st',
@@ -659,8 +682,8 @@ Section Cascade.
     cascade_gen u dflt k orc st rest = Some st' -> inv order st'.
   Proof.
     induction rest as [|p rest IH]; intros done st st' Eo Hinv H.
-    - cbn in H. injection H as <-. rewrite app_nil_r in Eo. subst done. exact Hinv.
-    - cbn [cascade_gen] in H.
+    - rewrite cascade_gen_nil in H. injection H as <-. rewrite app_nil_r in Eo. subst done. exact Hinv.
+    - rewrite cascade_gen_cons in H.
       destruct (walk_callback_gen u dflt k orc st p) as [st1|] eqn:EW; [|discriminate].
       apply (IH (done ++ [p]) st1 st'); [rewrite <- app_assoc; exact Eo | | exact H].
       destruct Hinv as (I1 & I2 & I3 & I4).
@@ -675,8 +698,10 @@ Section Cascade.
         - rewrite (spec_leaf c Es). apply I1. lia.
         - assert (Hc' : (pn c < start)%nat) by lia.
           destruct (in_dec pos_eq_dec c done) as [Hin|Hnin]; [apply I2; exact Hin|].
-          rewrite (I3 c Hnin Hc'). symmetry. apply not_in_order_none; [exact Hc'|].
-          intros Hco. apply Hnin. apply (order_cf done p rest c Eo Hc Hco). }
+          assert (Hco : ~ In c order).
+          { intros Hco. apply Hnin. apply (order_cf done p rest c Eo Hc Hco). }
+          rewrite (I3 c Hnin Hc'), (not_in_order_absent c Hc' Hco).
+          symmetry. apply not_in_order_none; assumption. }
       assert (Ecs : child_files orc dflt st p = map (fun c => option_map (decode (orc c)) (spec c)) (children p)).
       { unfold child_files. apply map_ext_in. intros c Hc. rewrite (Hch c Hc). reflexivity. }
       pose proof (walk_callback_effect u dflt k orc st p st1 EW) as Eff.
@@ -695,13 +720,16 @@ Section Cascade.
           -- apply I3; [|exact Hd]. intros X. apply Hq. apply in_or_app; left; exact X.
           -- intros ->. apply Hq. apply in_or_app; right; left; reflexivity.
         * intros q f Hf. rewrite Eff, Hf, andb_false_r. apply I4; exact Hf.
-      + (* all children absent: nothing happens *)
-        subst st1. split; [|split; [|split]].
-        * exact I1.
-        * intros q Hq. apply in_app_or in Hq. destruct Hq as [Hq|[<-|[]]]; [apply I2; exact Hq|].
-          rewrite Sp. apply I3; assumption.
-        * intros q Hq Hd. apply I3; [|exact Hd]. intros X. apply Hq. apply in_or_app; left; exact X.
-        * exact I4.
+      + (* all children absent: whatever lay at p is unlinked *)
+        split; [|split; [|split]].
+        * intros q Hq. rewrite Eff. rewrite pos_eqb_neq; [apply I1; exact Hq|]. intros ->. lia.
+        * intros q Hq. apply in_app_or in Hq. destruct Hq as [Hq|[<-|[]]].
+          -- rewrite Eff. rewrite pos_eqb_neq; [apply I2; exact Hq|]. intros ->. contradiction.
+          -- rewrite Eff, pos_eqb_refl, fmt_eqb_refl. cbn [andb]. symmetry; exact Sp.
+        * intros q Hq Hd. rewrite Eff. rewrite pos_eqb_neq.
+          -- apply I3; [|exact Hd]. intros X. apply Hq. apply in_or_app; left; exact X.
+          -- intros ->. apply Hq. apply in_or_app; right; left; reflexivity.
+        * intros q f Hf. rewrite Eff, Hf, andb_false_r. apply I4; exact Hf.
   Qed.
 
   Lemma cascade_spec_lemma st' :
@@ -715,17 +743,35 @@ Section Cascade.
     { split; [|split; [|split]].
       - reflexivity.
       - intros p [].
-      - intros p _ Hp. apply upper_empty; exact Hp.
+      - reflexivity.
       - reflexivity. }
     destruct (cascade_inv order [] st0 st' eq_refl I0 H) as (I1 & I2 & I3 & I4).
     split; [|split]; auto.
     intros p Hp. destruct (in_dec pos_eq_dec p order) as [Hin|Hnin]; [apply I2; exact Hin|].
-    rewrite (I3 p Hnin Hp). symmetry. apply not_in_order_none; assumption.
+    rewrite (I3 p Hnin Hp), (not_in_order_absent p Hp Hnin). symmetry. apply not_in_order_none; assumption.
   Qed.
 End Cascade.
 
 (* ------------------------------------------------------------------ *)
 (* packaged statements for Properties/C02.v                             *)
+
+(* re-cascade: tiles may already lie above the start level, provided the walk visits them *)
+Lemma cascade_spec_overwrite u dflt k orc start st0 order st' :
+  covers_present dflt st0 start order ->
+  valid_order u dflt k orc st0 start order ->
+  cascade_gen u dflt k orc st0 order = Some st' ->
+  (forall p, (pn p < start)%nat ->
+             st' p dflt = pyramid_spec u dflt k orc (fun q => st0 q dflt) (start - pn p) p) /\
+  (forall p, (start <= pn p)%nat -> st' p dflt = st0 p dflt) /\
+  (forall p f, fmt_eqb f dflt = false -> st' p f = st0 p f).
+Proof.
+  intros Hc (V1 & V2 & V3 & V4) H.
+  exact (cascade_spec_lemma u dflt k orc start st0 order V1 V2 V3 V4 Hc st' H).
+Qed.
+
+Lemma upper_empty_covers_present dflt st0 start order :
+  upper_levels_empty dflt st0 start -> covers_present dflt st0 start order.
+Proof. intros Hu p Hp Hne. exfalso. apply Hne. apply Hu. exact Hp. Qed.
 
 Lemma cascade_spec_full u dflt k orc start st0 order st' :
   upper_levels_empty dflt st0 start ->
@@ -736,19 +782,18 @@ Lemma cascade_spec_full u dflt k orc start st0 order st' :
   (forall p, (start <= pn p)%nat -> st' p dflt = st0 p dflt) /\
   (forall p f, fmt_eqb f dflt = false -> st' p f = st0 p f).
 Proof.
-  intros Hu (V1 & V2 & V3 & V4) H.
-  exact (cascade_spec_lemma u dflt k orc start st0 Hu order V1 V2 V3 V4 st' H).
+  intros Hu. apply cascade_spec_overwrite. apply upper_empty_covers_present. exact Hu.
 Qed.
 
-Lemma cascade_order_independent_lemma u dflt k orc start st0 o1 o2 s1 s2 :
-  upper_levels_empty dflt st0 start ->
+Lemma cascade_order_independent_overwrite u dflt k orc start st0 o1 o2 s1 s2 :
+  covers_present dflt st0 start o1 -> covers_present dflt st0 start o2 ->
   valid_order u dflt k orc st0 start o1 -> valid_order u dflt k orc st0 start o2 ->
   cascade_gen u dflt k orc st0 o1 = Some s1 -> cascade_gen u dflt k orc st0 o2 = Some s2 ->
   forall p f, s1 p f = s2 p f.
 Proof.
-  intros Hu V1 V2 H1 H2 p f.
-  destruct (cascade_spec_full u dflt k orc start st0 o1 s1 Hu V1 H1) as (A1 & B1 & C1).
-  destruct (cascade_spec_full u dflt k orc start st0 o2 s2 Hu V2 H2) as (A2 & B2 & C2).
+  intros P1 P2 V1 V2 H1 H2 p f.
+  destruct (cascade_spec_overwrite u dflt k orc start st0 o1 s1 P1 V1 H1) as (A1 & B1 & C1).
+  destruct (cascade_spec_overwrite u dflt k orc start st0 o2 s2 P2 V2 H2) as (A2 & B2 & C2).
   destruct (fmt_eqb f dflt) eqn:Ef.
   - apply fmt_eqb_eq in Ef. subst f.
     destruct (Nat.lt_ge_cases (pn p) start) as [Hp|Hp].
@@ -757,9 +802,19 @@ Proof.
   - rewrite C1, C2 by exact Ef. reflexivity.
 Qed.
 
+Lemma cascade_order_independent_lemma u dflt k orc start st0 o1 o2 s1 s2 :
+  upper_levels_empty dflt st0 start ->
+  valid_order u dflt k orc st0 start o1 -> valid_order u dflt k orc st0 start o2 ->
+  cascade_gen u dflt k orc st0 o1 = Some s1 -> cascade_gen u dflt k orc st0 o2 = Some s2 ->
+  forall p f, s1 p f = s2 p f.
+Proof.
+  intros Hu. apply cascade_order_independent_overwrite; apply upper_empty_covers_present; exact Hu.
+Qed.
+
 Lemma merge_exists_lemma u dflt k orc st p st' :
   walk_callback_gen u dflt k orc st p = Some st' ->
-  ((forall c, In c (children p) -> st c dflt = None) -> st' = st) /\
+  ((forall c, In c (children p) -> st c dflt = None) ->
+   forall q f, st' q f = if pos_eqb q p && fmt_eqb f dflt then None else st q f) /\
   ((exists c, In c (children p) /\ st c dflt <> None) ->
    exists m, merge_tiles_gen u dflt k (child_files orc dflt st p) = Some (Some m) /\
              (is_completely_masked m = false -> encode dflt m <> None) /\
@@ -775,7 +830,7 @@ Proof.
   - intros (c & Hc & Hne).
     destruct (merge_tiles_gen u dflt k (child_files orc dflt st p)) as [[m|]|] eqn:EM; [| |contradiction].
     + exists m. split; [reflexivity|]. split; [|exact Eff].
-      intros Hm. unfold walk_callback_gen in H.
+      intros Hm. unfold walk_callback_gen, walk_callback_var in H.
       assert (E : map (fun c => rres_image (orc c) (read_image dflt st c DNone None None)) (children p)
                   = child_files orc dflt st p).
       { unfold child_files. apply map_ext. intros c0. apply read_none_image. }
@@ -833,6 +888,44 @@ Proof.
         unfold pos_eqb in Hs; cbn [pn Quadtree.px py Nat.eqb andb] in Hs;
         destruct y as [|y]; try reflexivity; exfalso; apply Hs;
         destruct x as [|x]; try (destruct x); destruct y; reflexivity.
+Qed.
+
+(* a directory that already holds a root tile (left by an earlier cascade) and no
+   level-1 tile at all: the re-cascade from level 1 must leave no root tile *)
+Definition stale_st0 : store :=
+  fun p f => if fmt_eqb f Fits && pos_eqb p root then Some (FExact (ex_tile 0)) else None.
+
+Lemma stale_level1_none c : pn c = 1%nat -> stale_st0 c Fits = None.
+Proof.
+  intros Hc. unfold stale_st0. cbn [fmt_eqb andb]. rewrite pos_eqb_neq; [reflexivity|].
+  intros ->. cbn in Hc. discriminate.
+Qed.
+
+Lemma stale_covers_present : covers_present Fits stale_st0 1 [root].
+Proof.
+  intros p Hp Hne. unfold stale_st0 in Hne. cbn [fmt_eqb andb] in Hne.
+  destruct (pos_eqb p root) eqn:E; [|contradiction]. apply pos_eqb_eq in E. left. symmetry. exact E.
+Qed.
+
+Lemma stale_valid_order : valid_order upd_px Fits 2 no_orc stale_st0 1 [root].
+Proof.
+  split; [|split; [|split]].
+  - intros p [<-|[]]. cbn. lia.
+  - repeat constructor. intros [].
+  - intros l1 p l2 c E Hc Hin. destruct l1 as [|a [|b l1]]; cbn in E.
+    + injection E as <- <-. destruct Hin as [<-|[]]. apply children_depth in Hc. cbn in Hc. discriminate.
+    + injection E as _ E. discriminate.
+    + injection E as _ E. discriminate.
+  - intros p Hp (c & Hc & Hs). exfalso. apply Hs.
+    assert (pn p = 0%nat) as E0 by lia. rewrite E0. cbn [Nat.sub pyramid_spec].
+    apply stale_level1_none. rewrite (children_depth p c Hc), E0. reflexivity.
+Qed.
+
+Lemma stale_root_outcomes :
+  (exists st', cascade_var true upd_px Fits 2 no_orc stale_st0 [root] = Some st' /\ st' root Fits <> None) /\
+  (exists st', cascade_gen upd_px Fits 2 no_orc stale_st0 [root] = Some st' /\ st' root Fits = None).
+Proof.
+  split; eexists; (split; [vm_compute; reflexivity|]); vm_compute; [discriminate|reflexivity].
 Qed.
 
 (* the compact placement description means: child i occupies rows
@@ -939,7 +1032,7 @@ Lemma walk_callback_total u dflt k orc bm st p :
   0 < k -> maskable bm = bm -> storable dflt bm -> good_store dflt k bm st ->
   exists st', walk_callback_gen u dflt k orc st p = Some st' /\ good_store dflt k bm st'.
 Proof.
-  intros Hk Hbm Hs Hg. unfold walk_callback_gen.
+  intros Hk Hbm Hs Hg. unfold walk_callback_gen, walk_callback_var.
   assert (E : map (fun c => rres_image (orc c) (read_image dflt st c DNone None None)) (children p)
               = child_files orc dflt st p).
   { unfold child_files. apply map_ext. intros c0. apply read_none_image. }
@@ -951,7 +1044,8 @@ Proof.
       match type of H with option_map _ (st ?q dflt) = _ =>
         destruct (st q dflt) as [d|] eqn:Ed; [|discriminate]; cbn in H; injection H as <-;
         apply decode_good; [apply (Hg q d Ed) | exact Hbm] end.
-  - rewrite En. exists st. auto.
+  - rewrite En. eexists. split; [reflexivity|]. intros q d. unfold st_set.
+    destruct (pos_eqb q p && fmt_eqb dflt dflt); [discriminate|apply Hg].
   - rewrite Em. unfold write_image. cbn [or_default].
     destruct (is_completely_masked m).
     + eexists. split; [reflexivity|]. intros q d. unfold st_set.
@@ -971,8 +1065,8 @@ Lemma cascade_defined_lemma u dflt k orc bm : forall order st,
   exists st', cascade_gen u dflt k orc st order = Some st' /\ good_store dflt k bm st'.
 Proof.
   induction order as [|p rest IH]; intros st Hk Hbm Hs Hg.
-  - exists st. cbn. auto.
-  - cbn [cascade_gen].
+  - exists st. rewrite cascade_gen_nil. auto.
+  - rewrite cascade_gen_cons.
     destruct (walk_callback_total u dflt k orc bm st p Hk Hbm Hs Hg) as (st1 & E & G1).
     rewrite E. apply IH; auto.
 Qed.
@@ -1092,11 +1186,10 @@ Qed.
 Lemma jpg_exists_lemma u k orc st p st' :
   0 < k -> (forall s o, u RGB s o = fill_px RGB s) ->
   (forall c d, In c (children p) -> st c Jpg = Some d -> exists h w, d = FLossy h w /\ 0 <= h /\ 0 <= w) ->
-  st p Jpg = None ->
   walk_callback_gen u Jpg k orc st p = Some st' ->
   (st' p Jpg <> None <-> exists c, In c (children p) /\ st c Jpg <> None).
 Proof.
-  intros Hk Hu Hl Hp H.
+  intros Hk Hu Hl H.
   destruct (merge_exists_lemma u Jpg k orc st p st' H) as (A & B).
   assert (Dec : {forall c, In c (children p) -> st c Jpg = None} + {exists c, In c (children p) /\ st c Jpg <> None}).
   { unfold children. cbn [In].
@@ -1107,7 +1200,7 @@ Proof.
       destruct (st d Jpg) eqn:Ed; [right; exists d; split; [auto 6|congruence]|] end.
     left. intros c [<-|[<-|[<-|[<-|[]]]]]; assumption. }
   destruct Dec as [Hall|Hex].
-  - rewrite (A Hall). split; [intros X; contradiction|].
+  - rewrite (A Hall), pos_eqb_refl. cbn [fmt_eqb andb]. split; [intros X; contradiction|].
     intros (c & Hc & Hn). rewrite (Hall c Hc) in Hn. contradiction.
   - split; [intros _; exact Hex|]. intros _.
     destruct (B Hex) as (m & Em & Enc & Eff).
@@ -1119,8 +1212,8 @@ Proof.
     rewrite Hm. apply Enc. exact Hm.
 Qed.
 
-(* observation (outside the property's quantifier, which has no tiles above the
-   start level beforehand): the early return leaves a stale parent in place *)
+(* with all four children absent the callback used to return early and leave a stale
+   parent in place; the code now unlinks it (fix 2ad55bb) *)
 Definition ex_stale_parent_survives : bool :=
   match walk_callback Npy 1 no_orc (fun p f => if pos_eqb p root then Some (FLossy 1 1) else None) root with
   | Some st' => match st' root Npy with Some _ => true | None => false end
